@@ -67,9 +67,31 @@ CLAIMS = {
          "DESIGN.md 5 C15",
          "Structural necessary conditions of the two EIPs: transient-storage instructions and their gas are the reference's at the renumbered bytes; MCOPY's operands, memory-size function (max of both starts + length), gas function (per-word copy gas on the length operand + expansion) and the overlap-safe, zero-length-safe copy agree position by position; the three bytes are installed only in the Cancun table, which is selected first.",
          "memmove semantics of the builtin copy, the StateDB's transient journal, and equality with an executable EIP-5656 model are not decided; no newer reference implementation is on disk. " + TRUST),
+ "C03": ("go/ssa bounds, division and accessor-precondition obligations over all fork-only code and fork insertions, discharged by guard entailment (Fourier-Motzkin, wrap-around aware); nil-context dominance rule; no-panic scan; clone rule for inherited code; CFG pairing rule for bookkeeping",
+         "DESIGN.md 4 (E3), 5 C03",
+         "Sufficient structural condition for absence of Go run-time panics in fork code: every index/slice/make/division/GetCopy precondition is entailed by dominating guards under machine arithmetic; nil-able context fields are tested before use; no explicit panic or unchecked type assertion; inherited code is the reference's; the call-tree cursor is closed by a deferred exit on every path.",
+         "panics inside StateDB, host callbacks, the Aspect runtime and dependencies are not decided; Memory.Copy's bounds rest on the stated interpreter-contract assumption (who-may-call checked); nil map writes and stack exhaustion are not modelled. " + TRUST),
+ "C09": ("bounds obligations of the two change-journal instructions; single-recorder-call-after-validation rule; positional-bytes lint with positive control; SSA provenance of slot, account and offset operands",
+         "DESIGN.md 5 C09",
+         "Structural necessary conditions only: invalid (offset, width) and undecodable strings never reach a slice expression; nothing is recorded before validation completes; no zero-stripping byte conversion where position matters; the word journaled is read at the slot/account it is filed under and sliced by the offset operand handed to the recorder.",
+         "does NOT decide that the recorded bytes equal Solidity's packed field or string content (value-level); the long-string loop's pre-increment and missing truncation were read and are outside static reach (DESIGN section 6). " + TRUST),
+ "C14": ("table query for addresses 100-102; bounds obligations of loadParamBytes and the three Run methods; nil-context dominance; host-call dominance of success returns and data dependence of the output; provenance of the write address; constant RequiredGas",
+         "DESIGN.md 5 C14",
+         "Structural necessary conditions: the three precompiles are installed from Berlin on only; no payload can make their decoding slice out of range (uint64 wrap respected); a success return implies the Aspect runtime was consulted and readers return data derived from its answer; a context write is filed under the caller address captured by EVM.Call or refused; the fee is one constant.",
+         "does not decide that well-formed ABI payloads decode to the right bytes, nor the exact-length policy of the hash payload, nor the Aspect runtime's behaviour. " + TRUST),
+ "C19": ("bounds obligations over fork-only and fork-inserted tracer code plus one inherited function whose callee postcondition the fork changed; inductive field invariant len(callstack) >= 1; clone rule for inherited tracers",
+         "DESIGN.md 5 C19",
+         "Structural necessary condition 'finishes without panic' for the call tracers: every index/slice in fork tracer code is entailed by dominating guards given the inductively checked invariant that the call stack keeps its root frame.",
+         "does NOT decide exactly-once emission, matching of Aspect exits to open frames, sub-trace counts or trace-address uniqueness (properties of event histories). One known finding (flatCallTracer.CaptureExit) is listed in known_findings.json. " + TRUST),
+ "C20": ("resource obligations (loop trip bounds, make/copy sizes) over everything statically reachable in the fork from the journal instructions and the Artela precompiles, discharged by guard entailment against constants and lengths of existing buffers",
+         "DESIGN.md 5 C20",
+         "Structural sufficient condition: in code reachable from fork instructions/precompiles every loop bound and every allocation/copy size is a constant or entailed to be at most the length of a buffer that already exists; the fee itself is C12.",
+         "constants of proportionality and work inside host callbacks/StateDB are not decided. One known finding (long-string loop of opReferenceChangeJournal) is listed in known_findings.json. " + TRUST),
 }
 
-NA = {}
+NA = {
+ "C11": "Not claimed. The property quantifies over all finite sequences of registrations and journals (idempotence, exact child sets, agreement of two look-up paths after any history); deciding it needs a reference model and exploration of histories, which is outside static analysis. The only structural clause found (AddChild indexes one object by name and returns another when (slot, offset) is already present with a different name/type, DESIGN section 6 F12) was read but no exact, behaviour-insensitive rule for it was built in the time available; an honest not-applicable beats a brittle proxy.",
+}
 
 checks = []
 na = []
